@@ -59,7 +59,8 @@ def scan(source: str, callback: callable, special: dict=None):
 
                             scanner.pos += 1
 
-                        if found and callback(name, ElementType.Close, scanner.start, scanner.pos) is False:
+                        # Report name of closing tag as it’s written: `</SCRIPT>`
+                        if found and callback(scanner.substring(scanner.start + 2, scanner.pos - 1), ElementType.Close, scanner.start, scanner.pos) is False:
                             break
         else:
             scanner.pos += 1
@@ -82,12 +83,22 @@ def consume_closing(scanner: Scanner, name: str):
     start = scanner.pos
     if scanner.eat(Chars.LeftAngle) and \
         scanner.eat(Chars.Slash) and \
-        consume_array(scanner, name) and \
+        consume_name(scanner, name) and \
         scanner.eat(Chars.RightAngle):
         scanner.start = start
         return True
 
     scanner.pos = start
+    return False
+
+
+def consume_name(scanner: Scanner, name: str):
+    "Consumes given tag name, written in any letter case, from scanner"
+    end = scanner.pos + len(name)
+    if scanner.string[scanner.pos:end].lower() == name.lower() and end <= scanner.end:
+        scanner.pos = end
+        return True
+
     return False
 
 
@@ -120,8 +131,10 @@ def processing_instruction(scanner: Scanner):
 
 def is_special(special: dict, name: str, source: str, start: int, end: int):
     "Check if given tag name should be considered as special"
-    if name in special:
-        type_values = special[name]
+    # NB: HTML tag names are case-insensitive: `<SCRIPT>` is a script as well
+    key = name if name in special else name.lower()
+    if key in special:
+        type_values = special[key]
         if not isinstance(type_values, list):
             return True
 
